@@ -6,7 +6,9 @@ dirs=${@:-$(ls seeded)}
 for d in $dirs; do
   wt=/tmp/sw_$d
   git -C /repo worktree add -q --detach $wt HEAD || continue
-  if git -C $wt apply /verif/seeded/$d/patch.diff 2>/dev/null; then
+  if grep -q neutralised_by /verif/seeded/$d/meta.json; then
+    echo "$d neutralised by a later fix (see meta.json), skipped"
+  elif git -C $wt apply /verif/seeded/$d/patch.diff 2>/dev/null; then
     checks=$(python3 -c "import json;print(' '.join(json.load(open('/verif/seeded/$d/meta.json'))['detected_by'].keys()))")
     for c in $checks; do
       VERIF_REPO=$wt ./check $c --tier quick > .work/seeded_${d}_$c.log 2>&1; rc=$?
